@@ -39,7 +39,9 @@ ATOMS = ALPHABET + ["b", "x1", "`a b`", "`", "``", "{", "}", "{a+b}", "{a +", "f
                    "é", "名", "\t", "\n", "\x00", "\x0b", " ", "  ", "~~", "||", "|~", "[a~b]", "[[a~b]~c]", "]~", "=", "<", ">", "!", "@", "#", "$",
                    "&", ";", "?", "1e5", "1.", ".5", "00", "1_000", "0x1", "-0", "+0", "- 0", "f(``)", "f(`class`)", "I(`x`", "{`}", "`{`", "C(a, contr.treatment)",
                    "lambda", "class", "None", "a:b:c", "a*b", "(", ")", "log(d[0].x)", "f((a + b).real)", "{d[0].x}", "np.log(df['y'].values)",
-                   "**'2'", "^\"b\"", "**...", "**('x')", "**1e2", "**True", "**None", "f('a'.upper())", "{[i for i in a]}", "{lambda: 0}", "f(*a, **b)", "{a if b else c}", "~", "~", "~"]
+                   "**'2'", "^\"b\"", "**...", "**('x')", "**1e2", "**True", "**None", "f('a'.upper())", "{[i for i in a]}", "{lambda: 0}", "f(*a, **b)", "{a if b else c}", "~", "~", "~",
+                   # exponents far beyond anything enumerable: only their parity with the number of terms can matter
+                   "**99999999999999999999", "^9999999999", "**(12345678901234567890123)", "** 18446744073709551616", "**7", "^12", "**40", "**5"]
 FLAGSETS = c01.FLAG_SUBSETS
 _PARSERS: dict = {}
 
@@ -254,7 +256,7 @@ def rand_cfg(rng):
             "entry": rng.choice(["Formula", "get_terms"])}
 
 
-BIG_EXPONENT = re.compile(r"(\*\*|\^)[\s(+\-]*(\d*[4-9]|\d\d)")
+BIG_EXPONENT = re.compile(r"(\*\*|\^)[\s(+\-]*(?!\d{10,})(\d*[4-9]|\d\d)")
 
 
 def gen_fuzz(rng: random.Random, tier: str) -> dict:
@@ -263,8 +265,7 @@ def gen_fuzz(rng: random.Random, tier: str) -> dict:
         glue = rng.choice(["", " ", " ", "mixed"])
         parts = [rng.choice(ATOMS) for _ in range(n)]
         s = "".join(p + (rng.choice(["", " "]) if glue == "mixed" else glue) for p in parts)
-        if not BIG_EXPONENT.search(s):  # |arg|^n with n >= 4 is legitimate exponential work, not a termination defect
-            return {"s": s, **rand_cfg(rng)}
+        return {"s": s, **rand_cfg(rng)}  # (any exponent: a power costs no more than the size of its result)
 
 
 def gen_mutation(rng: random.Random, tier: str) -> dict:
@@ -285,8 +286,6 @@ def gen_mutation(rng: random.Random, tier: str) -> dict:
         else:
             s.insert(i, rng.choice(list("()[]{}`'\"%~|+-*/:^.,0 1a\\") + ["**", "%in%"]))
     s = "".join(s)
-    if BIG_EXPONENT.search(s):
-        return gen_mutation(rng, tier)
     return {"s": s, **rand_cfg(rng)}
 
 
@@ -312,6 +311,8 @@ def gen_flags(rng: random.Random, tier: str) -> dict:
     case = {"s": s, "uses": kind, "icpt": rng.random() < 0.5, "flags": rng.choice(FLAGSETS)}
     if rng.random() < 0.4:  # the parser was configured differently (and used) before: reconfiguration history
         case["prev_flags"] = [rng.choice(FLAGSETS) for _ in range(rng.randint(1, 2))]
+    if rng.random() < 0.3:  # the configured parser reaches the call as a copy
+        case["clone"] = rng.choice(["deepcopy", "pickle", "copy"])
     return case
 
 
@@ -345,12 +346,17 @@ def judge_flags(case) -> Outcome:
     from formulaic.errors import FormulaParsingError
 
     out = Outcome()
-    out.sig = (case["uses"], tuple(case["flags"]), case["icpt"], len(case["s"]), repr(case.get("prev_flags")))
+    out.sig = (case["uses"], tuple(case["flags"]), case["icpt"], len(case["s"]), repr(case.get("prev_flags")), case.get("clone"))
     needs = {"twosided": ["TWOSIDED"], "multipart": ["MULTIPART"], "twosided+multipart": ["TWOSIDED", "MULTIPART"],
              "multistage": ["TWOSIDED", "MULTISTAGE"], "none": []}[case["uses"]]
     disabled = [f for f in needs if f not in case["flags"]]
     try:
         parser = reconfigured_parser(case) if case.get("prev_flags") else parser_for(case["icpt"], case["flags"])
+        if case.get("clone"):
+            import copy
+            import pickle
+
+            parser = {"deepcopy": copy.deepcopy, "copy": copy.copy, "pickle": lambda p: pickle.loads(pickle.dumps(p))}[case["clone"]](parser)
         Formula(case["s"], _parser=parser)
         if disabled:
             out.fail("c14.disabled_operator_accepted", f"{case['s']!r} parsed although {disabled} disabled (flags {case['flags']})")
